@@ -846,6 +846,11 @@ func (h *handler1) handleMqttSn(ctx context.Context, pkt snPkts.Packet) error {
 
 	// Client REGISTER transaction.
 	case *snPkts1.Register:
+		// The registration and its REGACK must be atomic with respect to the
+		// TopicID lookup in handleBrokerPublish(): a PUBLISH from the broker
+		// must not use the new TopicID before the client has been told it.
+		h.registrationMutex.Lock()
+		defer h.registrationMutex.Unlock()
 		returnCode := snPkts1.RC_ACCEPTED
 		topicID, err := h.registerTopic(snPkt.TopicName)
 		if err != nil {
